@@ -436,12 +436,16 @@ impl CodeGenerator {
             IRNode::Map {
                 input, projection, ..
             } => {
-                // For Map, check if output is binary
-                if projection.len() != 2 {
+                // For Map, the base case must be exactly tc(X, Y) <- edge(X, Y):
+                // an identity projection of a binary scan. A swapped or repeated
+                // projection (tc(Y, X) <- edge(X, Y)) is not plain transitive closure.
+                if projection.as_slice() != [0, 1] {
                     return None;
                 }
                 match input.as_ref() {
-                    IRNode::Scan { relation, .. } => (relation.clone(), 2),
+                    IRNode::Scan { relation, schema } if schema.len() == 2 => {
+                        (relation.clone(), 2)
+                    }
                     _ => return None,
                 }
             }
@@ -498,8 +502,11 @@ impl CodeGenerator {
                     None
                 }
             }
-            // Also handle Map over Join (for projections)
-            IRNode::Map { input, .. } => match input.as_ref() {
+            // Also handle Map over Join (for projections). Only the projection of
+            // tc(X, Z) <- edge(X, Y), tc(Y, Z) qualifies: join output is (X, Y, Z).
+            IRNode::Map {
+                input, projection, ..
+            } if projection.as_slice() == [0, 2] => match input.as_ref() {
                 IRNode::Join {
                     left,
                     right,
